@@ -5,7 +5,8 @@
 //  * mapped values of later rvalue arguments are moved, never copied.  Their *keys* (and the elements of sets) can only be
 //    reached as const objects through the iterators join uses, so copies of those are tolerated and counted as information,
 //  * the result holds exactly the union computed by the harness: first occurrence of a key wins for unique containers,
-//    everything is kept for multi containers (equal keys in argument order), sorted by key for ordered containers.
+//    everything is kept for multi containers, sorted by key for ordered unique containers (multi and unordered containers are
+//    compared as multisets: the relative order of equivalent keys / the bucket order is not promised).
 #include "C05_common.hpp"
 
 #include <fcppt/container/join.hpp>
@@ -135,9 +136,15 @@ template <cat Cat, class C> void tolerate(ctx &x, C const &_c)
 template <class C> void check_result(ctx &x, C const &_r, std::vector<int> _want)
 {
   std::vector<item> got = items_of(_r);
-  if constexpr (!kind<C>::ordered)
+  if constexpr (!kind<C>::ordered || kind<C>::multi)
   {
-    // iteration order of an unordered container is unspecified: compare as multisets (pairs stay together: ids are unique)
+    // iteration order of an unordered container is unspecified, and so is the relative order of equivalent keys of a
+    // multimap/multiset after a range insertion or a merge: compare as multisets (ids are unique), count the exact order
+    std::vector<int> exact;
+    for (item const &i : got)
+      exact.push_back(i.id);
+    if (kind<C>::ordered && exact != _want)
+      vrt::count(std::string("info:container::join<") + kind<C>::name + ">:equivalent_keys_not_in_argument_order");
     std::sort(got.begin(), got.end(), [](item const &a, item const &b) { return a.id < b.id; });
     std::sort(_want.begin(), _want.end());
   }
